@@ -15,6 +15,9 @@ CLAIMED = {
  "C03": ("CrossHair (z3) symbolic execution of the real PrettyPrinter._format/format_value/Quoter on dicts built per schema slot group, symbolic values, full line list vs a rendering rule written from the property statement",
          "Bounded symbolic execution: for every object type and every keyword slot group regenerated from schemas/*.json (quick: one keyword per distinct schema shape + every special-cased name; thorough: all keywords) the printed line list equals the lexical-class rule (strings quoted, enum words bare upper-case, numbers/booleans bare, bindings/expressions/regex(/i)/lists bare), hidden keys never printed, empty auto-created dict values refused with ValueError.",
          "Trusted: CrossHair/z3; string holes <=3 (quick) / <=5 (thorough) code points 32..0x2FFF without quotes/backslash; strings that look like expressions in multi-alternative keywords are outside (documented). The independent reader of the lexical classes is the scanner model of C05.", "§4 C03"),
+ "C09": ("CrossHair (z3) symbolic execution of the real Validator version filter with a symbolic float version on the real expanded schemas, vs the statement's range filter; acceptance decided by the real jsonschema on the really pruned entry; two-call cache histories vs a fresh Validator",
+         "Bounded symbolic execution: is_valid_for_version for symbolic bounds; get_versioned_properties on each real object schema for every version in (3,9) equals the min<=v<=max filter at every depth and in every alternative list; each annotated entry is accepted iff in range; a second call on a used Validator equals a fresh one for every pair of versions from {None,6.0,7.6,8.0}.",
+         "Trusted: jsonschema/jsonref, CrossHair/z3 (floats as reals). Histories of length 2; jsonref.load stubbed by a resolved deep copy in the history obligations; quick covers 7 object schemas, thorough all 19.", "§4 C09"),
 }
 NA = {}
 
